@@ -112,6 +112,22 @@ def h_compound(eng, src_units, dst_units, bound):
         ok = False
     eng.prove(ok == converted, "check-decorator")
 
+    # the same with more parameters, keyword arguments out of signature order and skipped defaults:
+    # each value is checked against its own parameter's dimension
+    sec, gram = ureg.Quantity(2, "second"), ureg.Quantity(3, "gram")
+
+    @ureg.check(ureg.Unit(dst), "[mass]", "[time]")
+    def g(a, w=gram, b=sec):
+        return 1
+
+    for label, call in (("kw-reversed", lambda: g(b=sec, w=gram, a=q)), ("kw-skip-default", lambda: g(q, b=sec)), ("kw-only-first", lambda: g(a=q))):
+        try:
+            call()
+            ok = True
+        except DimensionalityError:
+            ok = False
+        eng.prove(ok == converted, f"check-decorator-{label}")
+
 
 def _gen_text(eng, a, b, c, d, g):
     return [
@@ -199,6 +215,52 @@ def h_pairs(eng, pairs):
             eng.prove(Eq(r.magnitude, x * inf[u].num / inf[v].num), f"pair-value:{u}->{v}")
 
 
+def h_config(eng, option, u, v, e, f):
+    """registry configurations (auto_reduce_dimensions, case_sensitive=False, autoconvert_to_preferred):
+    the relation is the same and is preserved by products and quotients"""
+    opts = {"case_insensitive": {"case_sensitive": False}}.get(option, {option: True})
+    ureg = regs.default(eng, **opts)
+    if option == "autoconvert_to_preferred":
+        ureg.default_preferred_units = [ureg.meter, ureg.second, ureg.kilogram, ureg.newton]
+    inf = covers.infos()
+    x, y = eng.real("x"), eng.real("y")
+    eng.assume(Not(Eq(y, 0)))
+    a, b = ureg.Quantity(x, ureg.UnitsContainer({u: e})), ureg.Quantity(y, ureg.UnitsContainer({v: f}))
+    du, dv = _dimvec([inf[u]], [e]), _dimvec([inf[v]], [f])
+    for name, sign in (("mul", 1), ("div", -1)):
+        want = {}
+        for k, val in du.items():
+            want[k] = want.get(k, 0) + val
+        for k, val in dv.items():
+            want[k] = want.get(k, 0) + sign * val
+        want = {k: val for k, val in want.items() if val != 0}
+        try:
+            r = a * b if sign == 1 else a / b
+        except DimensionalityError:
+            eng.fail(f"{option}:{name}:product-of-quantities-raises")
+            continue
+        got = {k: (val.c if hasattr(val, "c") else Fraction(val)) for k, val in r.dimensionality.items()}
+        eng.prove(got == {k: Fraction(val) for k, val in want.items()}, f"{option}:{name}:dimensionality-is-product")
+        # the written product unit is still a valid conversion target, others are not
+        target = ureg.UnitsContainer({u: e}) * ureg.UnitsContainer({v: sign * f}) if u != v else ureg.UnitsContainer({u: e + sign * f})
+        try:
+            r.to(target)
+            ok = True
+        except DimensionalityError:
+            ok = False
+        eng.prove(ok, f"{option}:{name}:converts-to-the-written-product")
+        eng.prove(r.is_compatible_with(ureg.Unit(target)), f"{option}:{name}:compatible-with-the-written-product")
+        eng.prove(not r.is_compatible_with(ureg.Unit(target) * ureg.Unit("candela")), f"{option}:{name}:not-compatible-with-another-dimension")
+    # plain conversion relation under the configuration
+    same = _vec_equal(du, dv)
+    try:
+        a.to(b.units)
+        ok = True
+    except DimensionalityError:
+        ok = False
+    eng.prove(ok == same, f"{option}:convert-iff-same-dimension")
+
+
 def h_compatible_listing(eng, names):
     from ..ref import refdefs
 
@@ -217,7 +279,7 @@ def h_compatible_listing(eng, names):
         eng.prove(got == want, f"compatible-units:{n}")
 
 
-MIN_DISCHARGED = {"H01.a": 300, "H01.b": 100, "H01.c": 300}
+MIN_DISCHARGED = {"H01.a": 300, "H01.b": 100, "H01.c": 300, "H01.d": 100}
 
 
 def cases(tier, seed):
@@ -272,6 +334,13 @@ def cases(tier, seed):
     for i in range(0, len(pairs), 250 if big else 50):
         chunk = pairs[i : i + (250 if big else 50)]
         out.append(Case("H01.c", f"{i:06d}", M, "h_pairs", {"pairs": chunk}, validate=0, weight=3.0))
+    # registry configurations
+    fam = [("meter", "liter"), ("hectare", "inch"), ("second", "hertz"), ("joule", "newton"), ("gallon", "foot"), ("barn", "meter"), ("watt", "volt"), ("mile", "hour"), ("gram", "pound"), ("liter", "liter")]
+    fam += [tuple(rnd.sample(cov, 2)) for _ in range(20 if big else 4)]
+    for option in ("auto_reduce_dimensions", "case_insensitive", "autoconvert_to_preferred"):
+        for u, v in fam:
+            for e, f in ((1, 1), (2, -1), (-1, 3)) if (big or option == "auto_reduce_dimensions") else ((1, 1),):
+                out.append(Case("H01.d", f"{option}:{u}^{e},{v}^{f}", M, "h_config", {"option": option, "u": u, "v": v, "e": e, "f": f}, validate=1))
     names = canon if big else rnd.sample(canon, 60)
     for i in range(0, len(names), 20):
         out.append(Case("H01.c-listing", f"{i:04d}", M, "h_compatible_listing", {"names": names[i : i + 20]}, kind="conc"))
